@@ -147,9 +147,10 @@ Definition from_kelvin (off k : Q) : Q := k - off.
 
 Definition TEMPERATURE : nat := 4.
 
-(* to_kelvin_quantity: Quantity(to_kelvin(c) * kelvin), kelvin = (ks, kd) as registered *)
-Definition to_kelvin_quantity (off : Q) (ks : val) (kd : dim) (c : Q) : cres :=
-  quantity_ctor (QMul [QNum (VQ (to_kelvin off c)); QQty ks kd]) None.
+(* to_kelvin_quantity: Quantity(to_kelvin(c) * kelvin, dimension=units.temperature), kelvin = (ks, kd) as registered,
+   td = units.temperature (explicit, because a zero factor makes the collected dimension dimensionless) *)
+Definition to_kelvin_quantity (off : Q) (ks : val) (kd td : dim) (c : Q) : cres :=
+  quantity_ctor (QMul [QNum (VQ (to_kelvin off c)); QQty ks kd]) (Some td).
 
 (* from_kelvin_quantity: float(sympy.convert_to(value, kelvin).subs(kelvin, 1)) - off.  For a quantity whose
    dimension is not a temperature SymPy leaves other units in the expression and float() raises TypeError. *)
